@@ -236,12 +236,13 @@ def block_part(ck, rng, thorough):
     evaluated by the kernel (ties the block model of C01_block_fixed_point_any_schedule to the controller)"""
     from harness import blockcase as bc
     cases = []
-    for i in range(240 if thorough else 32):
-        c = bc.make_block_case(rng, i)
+    for i in range(300 if thorough else 44):
+        # every fourth case exercises a predictor (fine_only / pfasst_burnin) instead of an iteration
+        c = bc.make_block_case(rng, i, mode=(0 if i % 4 else (1 + (i // 4) % 2)))
         if c:
             cases.append(c)
             m = c[0]
-            ck.case(key=('block', m['steps'], m['levels'], tuple(m['nodes']), tuple(m['nsweeps']), tuple(m['dims']), m['imex'], m['jacobi'], m['finter'], tuple(m['QI']), m['quad_type'], m['do_coll_update']),
+            ck.case(key=('block', m['mode'], m['steps'], m['levels'], tuple(m['nodes']), tuple(m['nsweeps']), tuple(m['dims']), m['imex'], m['jacobi'], m['finter'], tuple(m['QI']), m['quad_type'], m['do_coll_update']),
                     sample=m)
     bc.eval_block_cases(ck, cases, chunk=4)
 
